@@ -158,14 +158,14 @@ for _m, _n, _nzs, _tiers, _sfx in ((2, 2, range(0, 5), ('quick', 'thorough'), ''
 # C11.s sparse back-end cs: row / column scaling of a real MatrixSparse (opt_eigen = 0) vs the dense definition (harness/C11/csscale.cpp)
 _CSSCALETUS = ['src/Matrix/MatrixSparse.cpp', 'src/Matrix/LinkMatrixSparse.cpp', 'src/Matrix/AMatrix.cpp', 'src/Basic/Utilities.cpp',
                'src/Basic/AStringable.cpp', '3rd-party/csparse/csparse.cpp']
-for _m, _n, _nzs, _sfx in ((2, 2, (0, 1, 2, 3), ''), (2, 3, (0, 1, 2, 3), '')):
+for _m, _n, _nzs, _sfx in ((2, 2, (0, 1, 2, 3), ''), (2, 3, (0, 1, 2), ''), (2, 3, (3,), '.nz3')):
     K('C11.s.%dx%d%s' % (_m, _n, _sfx), property='C11', engine='symex', harness='C11/csscale.cpp',
       entries=['k_%s_%d' % (o, z) for z in _nzs for o in ('mulrow', 'mulcol', 'divrow', 'divcol')], tiers=('quick', 'thorough'),
       tus=_CSSCALETUS, defines={'all': {'VF_M': _m, 'VF_N': _n}},
       bounds={'quick': 'MatrixSparse with the cs storage, %dx%d, exactly %s entries at arbitrary pairwise distinct positions given in any order (every sparsity pattern; triplets falling on the same cell are summed by the '
                        'constructor, which gives a pattern with fewer entries), integer values |v|<=100; '
                        'vec an arbitrary integer-valued vector |v|<=100 (divisors: every non-zero integer in [-100,101]) allocated at exactly its documented length (nrows for the row operations, '
-                       'ncols for the column operations)' % (_m, _n, '0..3')},
+                       'ncols for the column operations)' % (_m, _n, '%d..%d' % (min(_nzs), max(_nzs)) if len(_nzs) > 1 else str(_nzs[0]))},
       timeout_ms={'quick': 60000, 'thorough': 600000}, validate={'quick': 10, 'thorough': 30}, validate_doubles='int',
       what='MatrixSparse(const cs*), MatrixSparse::multiplyRow / multiplyColumn / divideRow / divideColumn on the cs back-end with cs_matvecR / cs_matvecL, cs_duplicate (cs_add), '
            'operate_Identify / operate_Identity / operate_Inverse, cs_spfree2, MatrixSparse::getValue (cs_get_value): R(i,j) = vec[i]*M(i,j) resp. vec[j]*M(i,j) '
